@@ -21,7 +21,7 @@ from detsim import env, gen, minimize, rng, runner
 from detsim.observe import (exc_token, observe_globals, observe_meta, observe_sync,
                             observe_track)
 from detsim.runner import Discard
-from detsim.sched import HarnessError, Scheduler
+from detsim.sched import HarnessError, Scheduler, SimDeadlock, deadlock_result
 
 PROP = "C13"
 LEVEL = "exploration"
@@ -448,6 +448,10 @@ def execute(plan: dict[str, Any]) -> dict[str, Any]:
     pending: list[Any] = []
     try:
         sched.run([body_for(i) for i in range(n_clients)])
+    except SimDeadlock as e:
+        # threads / locks the library made itself, all of them scheduled by the simulator:
+        # under this schedule a call never returns (its reference does)
+        return deadlock_result(PROP, e, sched)
     except HarnessError as e:
         harness_error = str(e)
     finally:
